@@ -9,12 +9,36 @@
 
 extern coap_tick_t env_now;
 
+/* ---- global lock: the CMake build defines COAP_THREAD_SAFE=1, so the protocol layer runs with the lock held ------- */
+#include <pthread.h>
+int ne_mutex_owner;              /* 0 free, 1 this (only) thread */
+int ne_selfdeadlock, ne_bad_unlock;
+pthread_t pthread_self(void) { return (pthread_t)1; }
+int pthread_mutex_init(pthread_mutex_t *m, const pthread_mutexattr_t *a) { (void)m; (void)a; ne_mutex_owner = 0; return 0; }
+int pthread_mutex_lock(pthread_mutex_t *m) { (void)m; if (ne_mutex_owner) ne_selfdeadlock = 1; ne_mutex_owner = 1; return 0; }
+int pthread_mutex_unlock(pthread_mutex_t *m) { (void)m; if (!ne_mutex_owner) ne_bad_unlock = 1; ne_mutex_owner = 0; return 0; }
+extern int coap_started;
+#if COAP_THREAD_SAFE
+#define NE_IN_CALLBACK (global_lock.in_callback)
+#else
+#define NE_IN_CALLBACK 1
+#endif
+/* C13: every application callback must be entered either with the lock released or inside a coap_lock_callback*
+ * section, otherwise a public API call made by the callback blocks on the non-recursive mutex */
+#ifdef C13_CALLBACK_CHECK
+#define NE_CALLBACK_ENTRY(name) VERIF_ASSERT(!coap_threadsafe_is_supported() || ne_mutex_owner == 0 || NE_IN_CALLBACK > 0, \
+    "C13 " name " is entered through a coap_lock_callback section (it may re-enter the public API)")
+#else
+#define NE_CALLBACK_ENTRY(name) do { } while (0)
+#endif
+
 /* ---- transmissions --------------------------------------------------------------------------------------- */
 #define NE_MAXTX 6
 static int ne_tx_count;
 static const uint8_t *ne_tx_ptr[NE_MAXTX];
 static size_t ne_tx_len[NE_MAXTX];
-static uint8_t ne_tx_first[NE_MAXTX][4];   /* first 4 bytes (UDP header) as written */
+#define NE_TXKEEP 16
+static uint8_t ne_tx_first[NE_MAXTX][NE_TXKEEP];   /* first bytes (UDP header, token, ...) as written; the PDU may be freed after the write */
 static coap_session_t *ne_tx_sess[NE_MAXTX];
 static ssize_t ne_write_result = 0;        /* 0: "all bytes written"; <0: error */
 
@@ -24,7 +48,11 @@ ne_l_write(coap_session_t *session, const uint8_t *data, size_t datalen) {
     ne_tx_ptr[ne_tx_count] = data;
     ne_tx_len[ne_tx_count] = datalen;
     ne_tx_sess[ne_tx_count] = session;
-    if (datalen >= 4) memcpy(ne_tx_first[ne_tx_count], data, 4);
+    {
+      /* byte loop (CBMC 6.11 mishandles memcpy into a row of a 2-D array) */
+      size_t i;
+      for (i = 0; i < NE_TXKEEP; i++) ne_tx_first[ne_tx_count][i] = i < datalen ? data[i] : 0;
+    }
   }
   ne_tx_count++;
   return ne_write_result < 0 ? ne_write_result : (ssize_t)datalen;
@@ -44,6 +72,7 @@ static const coap_pdu_t *ne_resp_sent;
 static void
 ne_nack_handler(coap_session_t *session, const coap_pdu_t *sent, const coap_nack_reason_t reason, const coap_mid_t mid) {
   (void)session;
+  NE_CALLBACK_ENTRY("nack handler");
   ne_nack_count++;
   ne_nack_reason = reason;
   ne_nack_mid = mid;
@@ -52,6 +81,7 @@ ne_nack_handler(coap_session_t *session, const coap_pdu_t *sent, const coap_nack
 static coap_response_t
 ne_response_handler(coap_session_t *session, const coap_pdu_t *sent, const coap_pdu_t *received, const coap_mid_t mid) {
   (void)session;
+  NE_CALLBACK_ENTRY("response handler");
   ne_resp_count++;
   ne_resp_mid = mid;
   ne_resp_sent = sent;
@@ -62,6 +92,7 @@ ne_response_handler(coap_session_t *session, const coap_pdu_t *sent, const coap_
 static int
 ne_event_handler(coap_session_t *session, const coap_event_t event) {
   (void)session; (void)event;
+  NE_CALLBACK_ENTRY("event handler");
   ne_event_count++;
   return 0;
 }
@@ -103,9 +134,17 @@ ne_init(void) {
   ne_ctx.nack_handler = ne_nack_handler;
   ne_ctx.response_handler = ne_response_handler;
   ne_ctx.handle_event = ne_event_handler;
+  ne_ctx.max_token_size = 8;          /* as coap_new_context() sets it (COAP_TOKEN_DEFAULT_MAX) */
   ne_init_session(&ne_sess, COAP_PROTO_UDP);
   ne_init_session(&ne_sess2, COAP_PROTO_UDP);
   ne_tx_count = ne_nack_count = ne_resp_count = ne_event_count = 0;
+  /* as inside any public API call: library started, global lock held by this thread */
+  coap_started = 1;
+#if COAP_THREAD_SAFE
+  memset(&global_lock, 0, sizeof(global_lock));
+#endif
+  ne_mutex_owner = 0;
+  coap_lock_lock(&ne_ctx, return);
 }
 
 /* a Confirmable/Non-confirmable request with encoded UDP header, concrete shape, symbolic mid/token bytes */
